@@ -747,16 +747,16 @@ func TestCheck(t *testing.T) {
 	if err != nil {
 		t.Fatalf("root: %v", err)
 	}
-	kinds := []string{"p256", "rsa2048", "p384", "ed25519"}
+	kinds := []string{"p256", "rsa2048", "p384", "ed25519", "rsa2048-spki-without-null"}
 	for _, kd := range kinds {
 		for n := 0; n < 3; n++ {
 			is := newIssuer(kd, n, root)
 			p := &parsedIssuer{root: rootX}
-			if p.ca, err = x509.ParseCertificate(is.caDER); err != nil {
+			if p.ca, err = x509.ParseCertificate(is.caDER); x509.IsFatal(err) {
 				t.Fatalf("issuer %s/%d: %v", kd, n, err)
 			}
 			for v := 0; v < nPre; v++ {
-				if p.pre[v], err = x509.ParseCertificate(is.preDER[v]); err != nil {
+				if p.pre[v], err = x509.ParseCertificate(is.preDER[v]); x509.IsFatal(err) {
 					t.Fatalf("pre-issuer %s/%d/%d: %v", kd, n, v, err)
 				}
 				r.Eval(1)
@@ -804,6 +804,8 @@ func TestCheck(t *testing.T) {
 		c.runFamily(family{"layouts", core, modesQ, c.pick(ecRSA, []int{0}), sers, vals[:1], us[:1], []int{1}, subjectKeys[:1], one, false, false})
 		// names and keys: every issuer (key type x name encoding) x subject name x subject key, <= 1 neighbour
 		c.runFamily(family{"names-and-keys", small, modesQ, c.pick(ecRSA, allN), sers[:1], vals[:1], us[:1], allN, subjectKeys, one, false, false})
+		// issuers whose certificate publishes the key with a non-canonical SubjectPublicKeyInfo
+		c.runFamily(family{"issuer-spki-non-canonical", small, modesQ, c.pick([]string{"rsa2048-spki-without-null"}, []int{0}), sers[:1], vals[:1], us[:1], []int{0}, subjectKeys[:2], one, false, false})
 		// scalar fields: serial x validity x unique ids x issuer key type, <= 1 neighbour
 		c.runFamily(family{"serial-validity-uid", small, modesQ, c.pick(ecRSA, []int{1}), sers, vals, us, []int{0}, subjectKeys[:1], one, false, false})
 		// validity x layout interplay on <= 2 neighbours
